@@ -73,6 +73,11 @@ Inits ==
          {<<Hdr("graph", "str", "str", FALSE), <<>>>>}
     [] Fam = "seqp" ->   \* the same on top of a well-formed graph: a violation (or a cycle, a duplicate ...) at the end of a valid construction
          {<<Hdr("graph", "str", "str", FALSE), <<Plain("n1", "str", "str", "str"), Plain("n2", "str", "str", "str"), EdgeOp(START, "n1", ""), EdgeOp("n1", END, "")>>>>}
+    [] Fam = "brshare" -> \* one *GraphBranch object attached to several start nodes, next to branches of their own, with run-time-checked conditions
+         {<<Hdr("graph", "str", "any", FALSE), <<Plain("n1", "str", "any", e), Plain("n2", "str", "str", "str"), EdgeOp(START, "n1", ""), EdgeOp("n2", END, "")>>>> :
+             e \in {"int", "str"}}
+    [] Fam = "sub" ->     \* a nested graph string -> string as a node, with / without input and output key
+         {<<Hdr("graph", gi, go, FALSE), <<SubOp("n1", "str", "str", "str", x), PassOp("p1", "", "")>>>> : gi \in {"str", "msa"}, go \in {"str", "msa"}, x \in {"", "ik", "ok", "iok"}}
     [] Fam = "cyc" ->    \* cycles behind double connections (an edge AND a branch from the same node into a cycle member), both trigger modes
          {<<Hdr("graph", "str", "str", FALSE), <<Plain("n1", "str", "str", "str"), Plain("n2", "str", "str", "str"), Plain("n3", "str", "str", "str"),
                                                  EdgeOp(START, "n1", ""), EdgeOp("n2", "n3", "")>>>>}
@@ -105,6 +110,11 @@ Alphabet(K) ==   \* K = keys declared so far
           NodeOp("n2", "str", "str", "str", "pre", "str"), NodeOp("n2", "str", "str", "str", "post", "int"), PassOp("p1", "pre", "any"), PassOp("p1", "pre", "str")}
          \cup {EdgeOp(p[1], p[2], "") : p \in {START, "n1", "n2", "p1", "zz"} \X {END, "n1", "n2", "p1", "zz"}}
          \cup {BranchOp(p[1], "str", p[2], p[2][1]) : p \in {START, "n1", "p1", "zz"} \X {<<END>>, <<"n1", END>>, <<"p1", END>>, <<"n1", "zz">>, <<"n1", "p1">>}}
+    [] Fam = "brshare" ->
+         {BranchOp(p[1], p[2], <<"n2", END>>, p[3]) : p \in {START, "n1", "n2"} \X {"any", "str"} \X {"n2", END}}
+         \cup {[BranchOp(a, "str", <<"n2", END>>, END) EXCEPT !.x = "s1"] : a \in {START, "n1", "n2"}}
+    [] Fam = "sub" ->
+         {EdgeOp(p[1], p[2], "") : p \in {<<START, "n1">>, <<START, "p1">>, <<"p1", "n1">>, <<"n1", "p1">>, <<"n1", END>>, <<"p1", END>>, <<START, END>>}}
     [] Fam = "cyc" ->
          {EdgeOp(p[1], p[2], "") : p \in {q \in {"n1", "n2", "n3"} \X {"n1", "n2", "n3", END} : q[1] # q[2] /\ q # <<"n2", "n3">>}}
          \cup {BranchOp(p[1], "str", p[2], p[2][1]) : p \in {"n1", "n2", "n3"} \X {<<"n2", END>>, <<"n3", END>>, <<"n2", "n3">>}}
@@ -166,7 +176,8 @@ DoNode(op, j) ==
              \/ (op.h = "pre" /\ (IF pass THEN op.t # "any" ELSE op.t # op.i))
              \/ (op.h = "post" /\ (IF pass THEN op.t # "any" ELSE op.t # op.o))
   IN IF bad THEN Fail(j) /\ UNCHANGED <<nodes, ctrl, data, brs, tv, mayE, preNode, fmk, compiled, startN, endN, ch, wf, snap>>
-     ELSE /\ nodes' = [nodes EXCEPT ![op.k] = [kind |-> IF pass THEN "pass" ELSE "typed", i |-> IF pass THEN "nil" ELSE op.i, o |-> IF pass THEN "nil" ELSE op.o]]
+     \* graph_node.go:94-120: an input / output key makes the node's type map[string]any BEFORE the nested graph's own type is looked at
+     ELSE /\ nodes' = [nodes EXCEPT ![op.k] = [kind |-> IF pass THEN "pass" ELSE "typed", i |-> IF pass THEN "nil" ELSE EffIn(op), o |-> IF pass THEN "nil" ELSE EffOut(op)]]
           /\ Finish("ok") /\ UNCHANGED <<ctrl, data, brs, tv, mayE, preNode, fmk, berr, compiled, startN, endN, ch, wf, snap>>
 
 (* addEdgeWithMappings (control + data edge) up to the call of updateToValidateMap *)
@@ -220,7 +231,10 @@ DoBranch(op, j) ==
 BrLoop ==
   /\ pc = "brloop"
   /\ IF cur.rem = {} THEN
-       /\ brs' = Append(brs, [a |-> cur.a, t |-> cur.op.t, ends |-> Range(cur.op.ends), c |-> cur.op.c, may |-> cur.b = "may", j |-> cur.j])
+       /\ brs' = Append(brs, [a |-> cur.a, t |-> cur.op.t, ends |-> Range(cur.op.ends), c |-> cur.op.c, may |-> cur.b = "may", j |-> cur.j,
+                            \* graph.go:464 writes the position into the branch OBJECT (shared objects keep the last one); the runner
+                            \* finds a branch's checker by its position in the start node's own list (graph_run.go calculateBranch)
+                            obj |-> cur.op.x, idx |-> Cardinality({b \in 1..Len(brs) : brs[b].a = cur.a})])
        /\ Finish("ok") /\ UNCHANGED <<tv, berr, startN, endN>>
      ELSE \E e \in cur.rem :
        IF ~Known(e) /\ e # END THEN Fail(cur.j) /\ UNCHANGED <<brs, tv, startN, endN>>
@@ -343,7 +357,7 @@ Call(op) ==
      ELSE IF hdr.fe = "chain" /\ op.op = "node" THEN DoAppend(op, j)
      ELSE IF berr # 0 THEN Finish("S") /\ UNCHANGED builder                 \* sticky build error first ...
      ELSE IF compiled THEN Finish("C") /\ UNCHANGED builder                \* ... then the compiled flag
-     ELSE IF op.op \in {"node", "pass"} THEN DoNode(op, j)
+     ELSE IF op.op \in {"node", "sub", "pass"} THEN DoNode(op, j)
      ELSE IF op.op = "edge" THEN DoEdge(op, j)
      ELSE DoBranch(op, j)
 
